@@ -45,7 +45,7 @@ type faultCase struct {
 }
 
 // failure kinds named by the property statement (an error must be reported) …
-var failKinds = []string{"transport", "http500", "http500-body", "http404", "empty-body", "non-json", "errors-without-data", "body-read-error", "bad-gzip"}
+var failKinds = []string{"transport", "http500", "http500-body", "http404", "empty-body", "non-json", "errors-without-data", "errors-without-data-rich", "body-read-error", "bad-gzip"}
 
 // … kinds that only apply to entity requests …
 var entityKinds = []string{"entities-short", "entities-long", "entities-not-array"}
@@ -166,6 +166,10 @@ func respond(kind string, r *sim.Request, answer []byte) *sim.Response {
 		return &sim.Response{Status: 200, Body: []byte("<html>oops</html>")}
 	case "errors-without-data":
 		return &sim.Response{Status: 200, Body: []byte(`{"errors":[{"message":"injected: subgraph failed"}]}`)}
+	case "errors-without-data-rich":
+		// the same failure as real servers spell it: several errors with locations (graphql-java
+		// reports an unknown location as -1/-1; others send 0, floats or strings), paths and extensions
+		return &sim.Response{Status: 200, Body: []byte(`{"errors":[{"message":"injected: subgraph failed","locations":[{"line":-1,"column":-1}],"path":["_entities",0,"x"],"extensions":{"code":"INTERNAL_SERVER_ERROR","n":1.5,"nested":{"a":[1,null]}}},{"message":"second","locations":[{"line":0,"column":0},{"line":2.0,"column":"7"}],"path":null,"extensions":null},{"message":"third","locations":[]}],"data":null}`)}
 	case "body-read-error":
 		half := answer[:len(answer)/2]
 		return &sim.Response{Status: 200, BodyReader: &errReader{data: half}}
